@@ -847,3 +847,40 @@ def snapshot(servicer, owners):
       od[s.name] = {'study': abs_study(s), 'trials': tl}
     out[o] = od
   return out
+
+
+# ---------------------------------------------------------------------------
+# committed == visible (SQLite file backends)
+# ---------------------------------------------------------------------------
+def table_dump(conn_execute):
+  """{table: sorted rows} through `conn_execute(sql) -> rows`."""
+  out = {}
+  names = [r[0] for r in conn_execute("SELECT name FROM sqlite_master WHERE type='table' ORDER BY name")]
+  for t in names:
+    rows = conn_execute(f'SELECT * FROM "{t}"')
+    out[t] = sorted(tuple(bytes(c) if isinstance(c, (bytes, memoryview)) else c for c in r) for r in rows)
+  return out
+
+
+def uncommitted_writes(servicer, db_path):
+  """Tables whose content as seen by the server's own connection differs from what
+  a second connection to the same file (i.e. a restarted server, another process)
+  sees. After a call has been answered there must be none: an acknowledged change
+  that is still pending on the connection is lost by a crash or by the next
+  rollback. Returns a list of 'table: n_own vs n_committed rows' strings."""
+  import sqlite3
+  inner = getattr(servicer.datastore, '_inner', servicer.datastore)
+  conn = inner._connection
+  own = table_dump(lambda q: conn.exec_driver_sql(q).fetchall())
+  other = sqlite3.connect(db_path, timeout=5)
+  try:
+    committed = table_dump(lambda q: other.execute(q).fetchall())
+  finally:
+    other.close()
+  diffs = []
+  for t in sorted(set(own) | set(committed)):
+    a, b = own.get(t), committed.get(t)
+    if a != b:
+      n_diff = len(set(a or []) ^ set(b or []))
+      diffs.append(f'{t}: {len(a or [])} rows visible to the server, {len(b or [])} committed, {n_diff} rows differ')
+  return diffs
